@@ -200,10 +200,128 @@ func errorHandled(c ssa.CallInstruction) (bool, string) {
 	}
 	for _, ev := range errVals {
 		if handled(ev, 0) {
+			if b := errorDroppedOnPath(c, ev); b != nil {
+				return false, fmt.Sprintf("the error is tested on some paths only: on the path through block %d it is overwritten or dropped before any test", b.Index)
+			}
 			return true, ""
 		}
 	}
 	return false, "error result is neither returned nor checked with an early error return"
+}
+
+// errorDroppedOnPath: is there a path from the call to a normal function exit on which the error value ev is never
+// consumed (tested against nil, returned, wrapped, stored)? `err = f(); if cond { err = g() }; if err != nil {…}` tests
+// f's error only on the path that skips g. Returns the exit block of such a path, or nil.
+func errorDroppedOnPath(c ssa.CallInstruction, ev ssa.Value) *ssa.BasicBlock {
+	type state struct {
+		b *ssa.BasicBlock
+		v ssa.Value
+	}
+	consumes := func(i ssa.Instruction, carrier ssa.Value) (consumed bool, next ssa.Value) {
+		switch x := i.(type) {
+		case *ssa.If:
+			if bo, ok := x.Cond.(*ssa.BinOp); ok && (bo.X == carrier || bo.Y == carrier) {
+				return true, nil
+			}
+		case *ssa.Return:
+			for _, r := range x.Results {
+				if r == carrier {
+					return true, nil
+				}
+			}
+		case *ssa.Store:
+			if x.Val == carrier {
+				return true, nil
+			}
+		case *ssa.MakeInterface:
+			if x.X == carrier {
+				return false, x
+			}
+		case *ssa.ChangeInterface:
+			if x.X == carrier {
+				return false, x
+			}
+		case ssa.CallInstruction:
+			for _, a := range x.Common().Args {
+				if a == carrier {
+					return true, nil
+				}
+			}
+			if x.Common().IsInvoke() && x.Common().Value == carrier {
+				return true, nil // err.Error() etc.
+			}
+		case *ssa.MakeClosure:
+			for _, b := range x.Bindings {
+				if b == carrier {
+					return true, nil
+				}
+			}
+		case *ssa.TypeAssert:
+			if x.X == carrier {
+				return true, nil
+			}
+		}
+		return false, nil
+	}
+	startBlock := c.Block()
+	startIdx := instrIndex(c)
+	if ex, ok := ev.(*ssa.Extract); ok && ex.Block() == startBlock {
+		startIdx = instrIndex(ex)
+	}
+	seen := map[state]bool{}
+	var walk func(b *ssa.BasicBlock, from int, carriers []ssa.Value) *ssa.BasicBlock
+	walk = func(b *ssa.BasicBlock, from int, carriers []ssa.Value) *ssa.BasicBlock {
+		for k := from; k < len(b.Instrs); k++ {
+			i := b.Instrs[k]
+			for _, cv := range carriers {
+				done, nx := consumes(i, cv)
+				if done {
+					return nil
+				}
+				if nx != nil {
+					carriers = append(carriers, nx)
+				}
+			}
+		}
+		if len(b.Succs) == 0 {
+			if isPanicExit(b) {
+				return nil
+			}
+			return b
+		}
+		for si, s := range b.Succs {
+			_ = si
+			// carriers entering s: the same values, plus phis of s that take one of them along this edge
+			pidx := -1
+			for pi, p := range s.Preds {
+				if p == b {
+					pidx = pi
+				}
+			}
+			next := append([]ssa.Value{}, carriers...)
+			for _, i := range s.Instrs {
+				phi, ok := i.(*ssa.Phi)
+				if !ok {
+					break
+				}
+				for _, cv := range carriers {
+					if pidx >= 0 && pidx < len(phi.Edges) && phi.Edges[pidx] == cv {
+						next = append(next, phi)
+					}
+				}
+			}
+			key := state{s, next[len(next)-1]}
+			if seen[key] {
+				continue
+			}
+			seen[key] = true
+			if r := walk(s, 0, next); r != nil {
+				return r
+			}
+		}
+		return nil
+	}
+	return walk(startBlock, startIdx+1, []ssa.Value{ev})
 }
 
 func runC09(e *Engine, r *Report, tier string) {
